@@ -130,6 +130,9 @@ func Run(bodies []func(), chooser Chooser, syncPoints bool) (*Sched, []ThreadRes
 	if OnRealDeadlock != nil {
 		stopWD = make(chan struct{})
 		go s.watchdog(stopWD)
+	} else if StallPatience > 0 {
+		stopWD = make(chan struct{})
+		go s.stallGuard(stopWD)
 	}
 	s.threads[s.running].h.signal()
 	s.mainH.wait()
